@@ -287,17 +287,17 @@ theorem getElem?_append_one {α : Type} {l : List α} {x y : α} {i : Nat} (h : 
     | succ j => rw [hj] at h; simp at h
 
 theorem newFactory_world (p : Policy) (a b c d : Nat) (w : World) :
-    ∃ cs fac, (newFactory p a b c d w).2 = { w with caches := cs, facs := w.facs ++ [fac] } ∧ fac.pol = p ∧
+    ∃ cs fac, (newFactory p a b c d w).2 = { w with caches := cs, facs := w.facs ++ [fac] } ∧ (fac.pol = p ∧ fac.closed = false) ∧
       ∀ (i : Nat) (kc : KeyCache), cs[i]? = some kc → w.caches[i]? = some kc ∨ (kc.ents = [] ∧ kc.latest = []) := by
   obtain ⟨ea, ri, pr, csk, cik, sh, skk, ikk⟩ := p
   cases sh
-  · refine ⟨w.caches ++ [cacheOf csk skk a b], { pol := ⟨ea, ri, pr, csk, cik, false, skk, ikk⟩, skCache := w.caches.length, sharedIk := none }, rfl, rfl, ?_⟩
+  · refine ⟨w.caches ++ [cacheOf csk skk a b], { pol := ⟨ea, ri, pr, csk, cik, false, skk, ikk⟩, skCache := w.caches.length, sharedIk := none }, rfl, ⟨rfl, rfl⟩, ?_⟩
     intro i kc h
     rcases getElem?_append_one h with h | h
     · exact Or.inl h
     · exact Or.inr (h ▸ cacheOf_empty _ _ _ _)
   · refine ⟨(w.caches ++ [cacheOf csk skk a b]) ++ [cacheOf true ikk c d],
-      { pol := ⟨ea, ri, pr, csk, cik, true, skk, ikk⟩, skCache := w.caches.length, sharedIk := some (w.caches ++ [cacheOf csk skk a b]).length }, rfl, rfl, ?_⟩
+      { pol := ⟨ea, ri, pr, csk, cik, true, skk, ikk⟩, skCache := w.caches.length, sharedIk := some (w.caches ++ [cacheOf csk skk a b]).length }, rfl, ⟨rfl, rfl⟩, ?_⟩
     intro i kc h
     rcases getElem?_append_one h with h | h
     · rcases getElem?_append_one h with h | h
@@ -313,7 +313,7 @@ theorem newFactory_finv {t : Int} {w : World} (h : FInv t w) (p : Policy) (a b c
   rcases List.mem_append.mp hf with hf | hf
   · exact h.clock.2.2 f hf
   · simp only [List.mem_singleton] at hf
-    rw [hf, hfp]; exact hp
+    rw [hf, hfp.1]; exact hp
 
 theorem getSession_world (f part c d : Nat) (w : World) :
     ∃ cs ss, (getSession f part c d w).2 = { w with caches := cs, sessions := w.sessions ++ [ss] } ∧
@@ -382,5 +382,214 @@ theorem runOps_finv {t : Int} {w : World} (h : FInv t w) (ops : List Op) (hops :
   | cons op rest ih =>
     simp only [runOps]
     exact ih (applyOp_finv h op (hops op (by simp))) fun o ho => hops o (by simp [ho])
+
+/-! ### rows are immutable under SDK operations -/
+
+/-- an operation performed through the SDK (not the out-of-band `revoke` / `corruptRow`). -/
+def SdkOp : Op → Prop
+  | .revoke _ => False
+  | .corruptRow _ _ => False
+  | _ => True
+
+theorem applyOp_store_mono (w : World) (op : Op) (h : SdkOp op) :
+    ∀ r, r ∈ w.store → r ∈ (applyOp w op).2.store := by
+  rw [applyOp_snd]
+  cases op with
+  | newFactory p a b c d =>
+    obtain ⟨cs, fac, hw, _, _⟩ := newFactory_world p a b c d w
+    dsimp only; rw [hw]; exact fun r h => h
+  | getSession f part c d =>
+    obtain ⟨cs, ss, hw, _⟩ := getSession_world f part c d w
+    dsimp only; rw [hw]; exact fun r h => h
+  | encrypt s pay fl => exact (encrypt_ext s pay fl true w).store
+  | decrypt s d fl => exact (decrypt_ext s d fl true w).store
+  | closeSession s =>
+    have e : ((do beginOp []; closeSession s : M Unit) w) = closeSession s { w with log := [], faults := [] } := rfl
+    dsimp only
+    rw [e, closeSession_run]
+    dsimp only
+    split
+    · exact fun r h => h
+    · intro r hr; exact (cacheClose_ext _ _).store r hr
+  | closeFactory f =>
+    have e : ((do beginOp []; closeFactory f : M Unit) w) = closeFactory f { w with log := [], faults := [] } := rfl
+    have hx : Extends (do
+        match (w.facs.getD f default).sharedIk with
+        | some c => cacheClose c
+        | none => pure ()
+        cacheClose (w.facs.getD f default).skCache : M Unit) := by
+      ext_auto [cacheClose_ext]
+    dsimp only
+    rw [e, closeFactory_run]
+    intro r hr; exact (hx _).store r hr
+  | advance d => exact fun r h => h
+  | revoke m => exact h.elim
+  | corruptRow m dp => exact h.elim
+
+theorem applyOp_genuine {t : Int} (w : World) (op : Op) (hop : OpOK t op) {part pay : Nat} {d : Drr}
+    (hg : Genuine w.store part pay d) : Genuine (applyOp w op).2.store part pay d := by
+  by_cases hs : SdkOp op
+  · exact hg.mono (applyOp_store_mono w op hs)
+  · cases op with
+    | revoke m =>
+      rw [applyOp_snd]
+      obtain ⟨dk, c, ikm, dm, n, n', h1, h2⟩ := hg
+      exact ⟨dk, c, ikm, dm, n, n', h1, h2.map (revoke_keeps m)⟩
+    | corruptRow m dp => exact hop.elim
+    | _ => exact absurd trivial hs
+
+theorem runOps_genuine {t : Int} (w : World) (ops : List Op) (hops : ∀ op, op ∈ ops → OpOK t op) {part pay : Nat} {d : Drr}
+    (hg : Genuine w.store part pay d) : Genuine (runOps w ops).2.store part pay d := by
+  induction ops generalizing w with
+  | nil => exact hg
+  | cons op rest ih =>
+    simp only [runOps]
+    exact ih _ (fun o ho => hops o (by simp [ho])) (applyOp_genuine w op (hops op (by simp)) hg)
+
+/-! ### histories -/
+
+theorem runOps_cons (w : World) (op : Op) (rest : List Op) :
+    runOps w (op :: rest) = ((applyOp w op).1 :: (runOps (applyOp w op).2 rest).1, (runOps (applyOp w op).2 rest).2) := rfl
+
+/-- the `i`-th output of a history is the outcome of its `i`-th operation on the world reached by
+the first `i` operations; the final world is reached from there by the remaining operations. -/
+theorem runOps_at (w : World) (ops : List Op) (i : Nat) (op : Op) (h : ops[i]? = some op) :
+    (runOps w ops).1[i]? = some (applyOp (runOps w (ops.take i)).2 op).1 ∧
+    (runOps w ops).2 = (runOps (applyOp (runOps w (ops.take i)).2 op).2 (ops.drop (i + 1))).2 := by
+  induction ops generalizing w i with
+  | nil => cases h
+  | cons o rest ih =>
+    cases i with
+    | zero =>
+      simp only [List.getElem?_cons_zero, Option.some.injEq] at h
+      subst h
+      exact ⟨rfl, rfl⟩
+    | succ j =>
+      simp only [List.getElem?_cons_succ] at h
+      have := ih (applyOp w o).2 j h
+      rw [runOps_cons]
+      simp only [List.getElem?_cons_succ, List.take_succ_cons, List.drop_succ_cons]
+      exact this
+
+theorem mem_of_mem_take {α : Type} {l : List α} {i : Nat} {a : α} (h : a ∈ l.take i) : a ∈ l :=
+  List.mem_of_mem_take h
+
+/-- C01 core: a record returned by an encrypt of the history decrypts, in the final world, in every
+session of that partition, to the encrypted payload — unless the decrypt touches a destroyed secret. -/
+theorem genuine_decrypts {t : Int} {w : World} (h : FInv t w) {part pay : Nat} {d : Drr}
+    (hg : Genuine w.store part pay d) (s' : Nat) (hp : (w.sessions.getD s' default).part = part) :
+    (applyOp w (.decrypt s' d [])).1 = .payload pay ∨
+      accessesAfterClose w < accessesAfterClose (applyOp w (.decrypt s' d [])).2 := by
+  rw [(applyOp_decrypt w s' d []).1, (applyOp_decrypt w s' d []).2, decrypt_run]
+  have hx : (sessionCtx { w with log := [], faults := [] } s').part = part := hp
+  have hs := decryptDataRowRecord_spec (a := accessesAfterClose ({ w with log := [], faults := [] } : World)) (F := True)
+    (sessionCtx { w with log := [], faults := [] } s') d true pay
+  rcases hs.live (h.inv.beginOp []) rfl (hx ▸ hg) with hb | ⟨_, v, hv, hvp⟩
+  · exact Or.inr hb
+  · left; rw [hv, hvp]
+
+/-- the session's partition never changes once the session exists. -/
+theorem applyOp_part_stable (w : World) (op : Op) (s : Nat) (ss : Session) (h : w.sessions[s]? = some ss) :
+    ((applyOp w op).2.sessions.getD s default).part = ss.part := by
+  rw [applyOp_snd]
+  have keep : ∀ w' : World, w'.sessions = w.sessions → (w'.sessions.getD s default).part = ss.part := by
+    intro w' e; rw [e, List.getD_eq_getElem?_getD, h]; rfl
+  cases op with
+  | newFactory p a b c d =>
+    obtain ⟨cs, fac, hw, _⟩ := newFactory_world p a b c d w
+    dsimp only; rw [hw]; exact keep _ rfl
+  | getSession f part c d =>
+    obtain ⟨cs, s2, hw, _⟩ := getSession_world f part c d w
+    dsimp only; rw [hw]
+    show ((w.sessions ++ [s2]).getD s default).part = ss.part
+    rw [List.getD_eq_getElem?_getD, append_getElem?_of_some _ h]; rfl
+  | encrypt s0 pay fl => exact keep _ (encrypt_ext s0 pay fl true w).sessions
+  | decrypt s0 d fl => exact keep _ (decrypt_ext s0 d fl true w).sessions
+  | closeSession s0 =>
+    have e : ((do beginOp []; closeSession s0 : M Unit) w) = closeSession s0 { w with log := [], faults := [] } := rfl
+    dsimp only
+    rw [e, closeSession_run]
+    have hset : ((setAt w.sessions s0 fun x => { x with closed := true }).getD s default).part = ss.part := by
+      rw [List.getD_eq_getElem?_getD, setAt_getElem?, h]
+      split <;> rfl
+    dsimp only
+    split
+    · exact hset
+    · have := (cacheClose_ext (w.sessions.getD s0 default).ikCache
+        { ({ w with log := [], faults := [] } : World) with sessions := setAt w.sessions s0 fun x => { x with closed := true } }).sessions
+      rw [this]; exact hset
+  | closeFactory f =>
+    have e : ((do beginOp []; closeFactory f : M Unit) w) = closeFactory f { w with log := [], faults := [] } := rfl
+    have hx : Extends (do
+        match (w.facs.getD f default).sharedIk with
+        | some c => cacheClose c
+        | none => pure ()
+        cacheClose (w.facs.getD f default).skCache : M Unit) := by
+      ext_auto [cacheClose_ext]
+    dsimp only
+    rw [e, closeFactory_run]
+    exact keep _ (hx _).sessions
+  | advance d => exact keep _ rfl
+  | revoke m => exact keep _ rfl
+  | corruptRow m dp => exact keep _ rfl
+
+/-- C02 core (progress): from a world satisfying the invariants, a fault-free encrypt returns a
+record, unless it touches a destroyed secret. -/
+theorem encrypt_live {t : Int} {w : World} (h : FInv t w) (s pay : Nat) :
+    (∃ d, (applyOp w (.encrypt s pay [])).1 = .record d) ∨
+      accessesAfterClose w < accessesAfterClose (applyOp w (.encrypt s pay [])).2 := by
+  rw [(applyOp_encrypt w s pay []).1, (applyOp_encrypt w s pay []).2, encrypt_run]
+  have hc0 : ClockOK t { w with log := [], faults := [] } := h.clock
+  have hs := encryptPayload_spec (a := accessesAfterClose ({ w with log := [], faults := [] } : World)) (F := True)
+    (sessionCtx { w with log := [], faults := [] } s) pay true
+  rcases hs.live (h.inv.beginOp []) rfl (hc0.timeOK s) with hb | ⟨_, v, hv, _⟩
+  · exact Or.inr hb
+  · left; rw [hv]; exact ⟨v, rfl⟩
+
+/-- C02 core (safety): a returned record is genuine in the resulting store, for any fault list. -/
+theorem encrypt_genuine {t : Int} {w : World} (h : FInv t w) (s pay : Nat) (fl : List Fault) (d : Drr)
+    (hr : (applyOp w (.encrypt s pay fl)).1 = .record d) :
+    Genuine (applyOp w (.encrypt s pay fl)).2.store (w.sessions.getD s default).part pay d := by
+  rw [(applyOp_encrypt w s pay fl).2]
+  apply (encrypt_finv h s pay fl).2
+  rw [(applyOp_encrypt w s pay fl).1] at hr
+  split at hr
+  · rename_i d' hd'; cases hr; exact hd'
+  · cases hr
+
+/-- the chain of a genuine record is in the store. -/
+theorem Genuine.chain {w : World} (hi : Inv w) {part pay : Nat} {d : Drr} (hg : Genuine w.store part pay d) :
+    ∃ (dk : DrrKey) (c : Int), d.key = some dk ∧ dk.parent = some ⟨.ik part, c⟩ ∧
+      ∃ rik, rik ∈ w.store ∧ rik.kid = .ik part ∧ rik.created = c ∧
+        ∃ csk, rik.parent = some ⟨.sk, csk⟩ ∧ ∃ rsk, rsk ∈ w.store ∧ rsk.kid = .sk ∧ rsk.created = csk := by
+  obtain ⟨dk, c, ikm, dm, n, n', ⟨h1, h2, _, _⟩, r, hr, hk, hc, _⟩ := hg
+  obtain ⟨csk, skm, _, _, ⟨hp, _, _⟩, rsk, hrsk, hk2, hc2, _⟩ := hi.ikRow hr hk
+  exact ⟨dk, c, h1, h2, r, hr, hk, hc, csk, hp, rsk, hrsk, hk2, hc2⟩
+
+/-- a fresh factory and session for the partition, created in any world. -/
+theorem fresh_process {t : Int} {w : World} (h : FInv t w) (p : Policy) (a b c d part e f : Nat)
+    (hp : p.precision + nsPerSec ≤ t) :
+    let w1 := (applyOp w (.newFactory p a b c d)).2
+    let w2 := (applyOp w1 (.getSession w.facs.length part e f)).2
+    FInv t w2 ∧ sessionOpen w2 w1.sessions.length ∧ (w2.sessions.getD w1.sessions.length default).part = part ∧
+      (∀ r, r ∈ w.store → r ∈ w2.store) := by
+  intro w1 w2
+  have hf1 : FInv t w1 := applyOp_finv h _ hp
+  have hf2 : FInv t w2 := applyOp_finv hf1 _ trivial
+  have e1 : w1 = (newFactory p a b c d w).2 := applyOp_snd w _
+  have e2 : w2 = (getSession w.facs.length part e f w1).2 := applyOp_snd w1 _
+  obtain ⟨cs, fac, hw1, ⟨_, hfc⟩, _⟩ := newFactory_world p a b c d w
+  obtain ⟨cs2, ss, hw2, hsp, hsf, hsc, _⟩ := getSession_world w.facs.length part e f w1
+  have hfacs1 : w1.facs = w.facs ++ [fac] := by rw [e1, hw1]
+  have hsess2 : w2.sessions = w1.sessions ++ [ss] := by rw [e2, hw2]
+  have hfacs2 : w2.facs = w1.facs := by rw [e2, hw2]
+  have hget : w2.sessions[w1.sessions.length]? = some ss := by rw [hsess2]; simp
+  refine ⟨hf2, ⟨ss, hget, hsc, fac, ?_, hfc⟩, ?_, ?_⟩
+  · rw [hfacs2, hfacs1, hsf]; simp
+  · rw [List.getD_eq_getElem?_getD, hget]; exact hsp
+  · intro r hr
+    have s1 : w1.store = w.store := by rw [e1, hw1]
+    have s2 : w2.store = w1.store := by rw [e2, hw2]
+    rw [s2, s1]; exact hr
 
 end AsherahVerif.Env
